@@ -3,6 +3,7 @@ CONSTANTS
   N = 4
   Subs = {1, 2}
   TaskOf <- T_2x32
+  Follow <- F_none
   Lazy = TRUE
   Detached = TRUE
   WaitAll = TRUE
